@@ -254,3 +254,313 @@ Proof. intros H. rewrite <- (nat_of_dec_of_nat a), <- (nat_of_dec_of_nat b), H. 
 
 Example dec_of_nat_nonvacuous : dec_of_nat 0 = [48]%N /\ dec_of_nat 10 = [49; 48]%N /\ dec_of_nat 907 = [57; 48; 55]%N.
 Proof. vm_compute. auto. Qed.
+
+(** * The push invariant *)
+(* what holds of a callback as long as it is registered in [calls] *)
+Definition cb_ok (run : bool) (c : cb) : Prop :=
+  cb_slot c = None /\ cb_ret c = false /\
+  cb_watch c = (if cb_cancelled c then WParked else WBlocked) /\
+  (cb_ctx c <> None -> cb_cancelled c = true) /\ (run = false -> cb_cancelled c = true).
+
+Definition reg_ok (s : state) (k : bytes) (i : nat) : Prop :=
+  exists c, nth_error (cbs s) i = Some c /\ cb_id c = k /\ cb_ok (running s) c.
+
+Record inv_push (s : state) : Prop := {
+  ip_ids : forall k i, In (k, i) (calls s) -> exists j, j < call_id s /\ k = dec_of_nat j;
+  ip_nodup : NoDup (map fst (calls s));
+  ip_reg : forall k i, In (k, i) (calls s) -> reg_ok s k i;
+  ip_cbids : forall i c, nth_error (cbs s) i = Some c -> exists j, j < call_id s /\ cb_id c = dec_of_nat j;
+  ip_cbnodup : NoDup (map cb_id (cbs s))
+}.
+
+(* the invariant as worded in the property: keys are numerals below the counter, pairwise
+   distinct, and each maps to its own, still empty, callback record *)
+Definition inv_calls (s : state) : Prop :=
+  (forall k i, In (k, i) (calls s) -> exists j, j < call_id s /\ k = dec_of_nat j) /\
+  NoDup (map fst (calls s)) /\
+  (forall k i, In (k, i) (calls s) ->
+     exists c, i < length (cbs s) /\ nth_error (cbs s) i = Some c /\ cb_id c = k /\ cb_slot c = None).
+
+Lemma inv_push_calls s : inv_push s -> inv_calls s.
+Proof.
+  intros [H1 H2 H3 _ _]. repeat split; auto.
+  intros k i I. destruct (H3 _ _ I) as (c & N & E & S & _). exists c. repeat split; auto.
+  apply nth_error_Some. congruence.
+Qed.
+
+Lemma cb_ok_run r r' c : (r' = false -> r = false) -> cb_ok r c -> cb_ok r' c.
+Proof. unfold cb_ok. intros H (A & B & C & D & E). repeat split; auto. Qed.
+
+Lemma ip_frame s s' :
+  calls s' = calls s -> cbs s' = cbs s -> call_id s' = call_id s -> (running s' = false -> running s = false) ->
+  inv_push s -> inv_push s'.
+Proof.
+  intros E1 E2 E3 R [H1 H2 H3 H4 H5].
+  split; rewrite ?E1, ?E2, ?E3; auto.
+  intros k i I. destruct (H3 _ _ I) as (c & N & E & O). exists c. rewrite E2. split; [|split]; auto.
+  eapply cb_ok_run; eauto.
+Qed.
+
+Lemma ip_pv s s' : pv s' = pv s -> inv_push s -> inv_push s'.
+Proof.
+  intros P. apply pv_fields in P. destruct P as (P1 & P2 & P3 & P4 & P5 & P6 & P7 & P8 & P9 & P10).
+  apply ip_frame; auto. congruence.
+Qed.
+
+(* a callback record changes, registrations stay *)
+Lemma ip_upd s s' i f :
+  calls s' = calls s -> cbs s' = upd_nth i f (cbs s) -> call_id s' = call_id s -> running s' = running s ->
+  (forall x, cb_id (f x) = cb_id x) ->
+  (forall c, nth_error (cbs s) i = Some c -> In (cb_id c, i) (calls s) -> cb_ok (running s) c -> cb_ok (running s) (f c)) ->
+  inv_push s -> inv_push s'.
+Proof.
+  intros E1 E2 E3 E4 Fid Fok [H1 H2 H3 H4 H5].
+  split; rewrite ?E1, ?E2, ?E3; auto.
+  - intros k i0 I. destruct (H3 _ _ I) as (c & N & E & O). unfold reg_ok. rewrite E2, E4.
+    destruct (Nat.eq_dec i i0) as [<-|Ne].
+    + exists (f c). rewrite (nth_error_upd_nth_eq _ _ _ _ N). split; [|split]; auto.
+      * rewrite Fid; auto.
+      * apply Fok; auto. rewrite E; auto.
+    + exists c. rewrite nth_error_upd_nth_neq; auto.
+  - intros i0 c N. rewrite nth_error_upd_nth in N.
+    destruct (i =? i0); [|eauto].
+    destruct (nth_error (cbs s) i0) as [x|] eqn:Nx; cbn in N; [|discriminate].
+    injection N as <-. rewrite Fid. eauto.
+  - rewrite map_upd_nth_same; auto.
+Qed.
+
+(* callback [i] is completed: its record changes and its id is unregistered *)
+Lemma ip_complete s s' i c f :
+  nth_error (cbs s) i = Some c ->
+  calls s' = assoc_del (cb_id c) (calls s) -> cbs s' = upd_nth i f (cbs s) -> call_id s' = call_id s ->
+  running s' = running s -> (forall x, cb_id (f x) = cb_id x) ->
+  inv_push s -> inv_push s'.
+Proof.
+  intros N E1 E2 E3 E4 Fid [H1 H2 H3 H4 H5].
+  split; rewrite ?E1, ?E2, ?E3; auto.
+  - intros k i0 I. apply in_assoc_del in I as [I _]. eauto.
+  - apply NoDup_assoc_del; auto.
+  - intros k i0 I. apply in_assoc_del in I as [I Nk]. cbn in Nk.
+    destruct (H3 _ _ I) as (c' & N' & E & O). unfold reg_ok. rewrite E2, E4.
+    assert (i <> i0) by (intros <-; congruence).
+    exists c'. rewrite nth_error_upd_nth_neq; auto.
+  - intros i0 c0 N0. rewrite nth_error_upd_nth in N0.
+    destruct (i =? i0); [|eauto].
+    destruct (nth_error (cbs s) i0) as [x|] eqn:Nx; cbn in N0; [|discriminate].
+    injection N0 as <-. rewrite Fid. eauto.
+  - rewrite map_upd_nth_same; auto.
+Qed.
+
+Lemma stop_cb_id cl c : cb_id (stop_cb cl c) = cb_id c.
+Proof. unfold stop_cb. destruct (assoc (cb_id c) cl); reflexivity. Qed.
+
+Lemma ip_stop s s' :
+  calls s' = calls s -> cbs s' = map (stop_cb (calls s)) (cbs s) -> call_id s' = call_id s ->
+  inv_push s -> inv_push s'.
+Proof.
+  intros E1 E2 E3 [H1 H2 H3 H4 H5].
+  split; rewrite ?E1, ?E2, ?E3; auto.
+  - intros k i I. destruct (H3 _ _ I) as (c & N & E & (O1 & O2 & O3 & O4 & O5)).
+    exists (stop_cb (calls s) c). rewrite E2. split; [apply map_nth_error; auto|].
+    rewrite stop_cb_id. split; auto.
+    unfold stop_cb. rewrite E, (NoDup_assoc _ _ _ H2 I).
+    unfold cb_ok; cbn. repeat split; auto.
+    rewrite O3. destruct (cb_cancelled c); auto.
+  - intros i c N. apply nth_error_map_some in N as (x & N & ->). rewrite stop_cb_id. eauto.
+  - rewrite map_map. erewrite map_ext; [exact H5|]. intros; apply stop_cb_id.
+Qed.
+
+Lemma nth_error_snoc {A} (l : list A) x n y :
+  nth_error (l ++ [x]) n = Some y -> nth_error l n = Some y \/ (n = length l /\ y = x).
+Proof.
+  intros H. destruct (Nat.lt_ge_cases n (length l)) as [L|L].
+  - rewrite nth_error_app1 in H; auto.
+  - rewrite nth_error_app2 in H; auto. right.
+    destruct (n - length l) as [|d] eqn:D; cbn in H; [injection H as <-; split; auto; lia|].
+    destruct d; discriminate.
+Qed.
+
+Lemma NoDup_snoc {A} (l : list A) x : NoDup l -> ~ In x l -> NoDup (l ++ [x]).
+Proof.
+  induction l as [|y l IH]; cbn; intros H N; [repeat constructor; auto|].
+  inversion H; subst. constructor; [|apply IH; auto].
+  rewrite in_app_iff. cbn. intros [I|[E|[]]]; auto.
+Qed.
+
+(* a new callback record with the next id, not (yet) registered *)
+Lemma ip_append s s' c :
+  calls s' = calls s -> cbs s' = cbs s ++ [c] -> call_id s' = S (call_id s) -> running s' = running s ->
+  cb_id c = dec_of_nat (call_id s) ->
+  inv_push s -> inv_push s'.
+Proof.
+  intros E1 E2 E3 E4 Eid [H1 H2 H3 H4 H5].
+  split; rewrite ?E1, ?E2, ?E3; auto.
+  - intros k i I. destruct (H1 _ _ I) as (j & L & ->). exists j; split; auto.
+  - intros k i I. destruct (H3 _ _ I) as (c' & N & E & O). exists c'. rewrite E2, E4.
+    split; [|split]; auto. apply nth_error_app_old; auto.
+  - intros i c0 N. apply nth_error_snoc in N as [N|[-> ->]].
+    + destruct (H4 _ _ N) as (j & L & E). exists j; split; auto.
+    + exists (call_id s); split; auto.
+  - rewrite map_app. cbn. apply NoDup_snoc; auto.
+    intros I. apply in_map_iff in I as (x & Ex & I). apply In_nth_error in I as (i & N).
+    destruct (H4 _ _ N) as (j & L & E). rewrite Eid, E in Ex. apply dec_of_nat_inj in Ex. lia.
+Qed.
+
+(* registration of an existing, unregistered record *)
+Lemma ip_register s s' k i c :
+  calls s' = (k, i) :: assoc_del k (calls s) -> cbs s' = cbs s -> call_id s' = call_id s -> running s' = running s ->
+  (exists j, j < call_id s /\ k = dec_of_nat j) ->
+  nth_error (cbs s) i = Some c -> cb_id c = k -> cb_ok (running s) c ->
+  inv_push s -> inv_push s'.
+Proof.
+  intros E1 E2 E3 E4 Hk N Eid Ok [H1 H2 H3 H4 H5].
+  split; rewrite ?E1, ?E2, ?E3; auto.
+  - intros k0 i0 [E|I]; [injection E as <- <-; auto|]. apply in_assoc_del in I as [I _]. eauto.
+  - cbn. constructor; [|apply NoDup_assoc_del; auto].
+    apply assoc_none. apply assoc_del_same.
+  - intros k0 i0 [E|I].
+    + injection E as <- <-. exists c. rewrite E2, E4. auto.
+    + apply in_assoc_del in I as [I _]. destruct (H3 _ _ I) as (c' & N' & E & O).
+      exists c'. rewrite E2, E4. auto.
+Qed.
+
+Ltac ipf H := eapply ip_frame; [| | | |exact H]; [reflexivity|reflexivity|reflexivity|cbn; try discriminate; auto].
+
+Lemma wake_watch_id c : cb_id (wake_watch c) = cb_id c.
+Proof. reflexivity. Qed.
+
+Lemma complete_cb_ip i r s : inv_push s -> inv_push (fst (complete_cb i r s)).
+Proof.
+  intros H. unfold complete_cb. destruct (nth_error (cbs s) i) as [c|] eqn:N; cbn [fst]; auto.
+  eapply ip_complete with (i := i) (c := c) (f := fun c => wake_watch (c <| cb_slot := Some r |>)); eauto; reflexivity.
+Qed.
+
+Lemma filter_batch_ip : forall ms s keep acc, inv_push s -> inv_push (fst (fst (filter_batch ms s keep acc))).
+Proof.
+  induction ms as [|m r IH]; intros s keep acc H; cbn [filter_batch]; auto.
+  destruct (is_req_or_notif m); auto.
+  destruct (assoc (fix_id (j_id m)) (calls s)) as [i|].
+  - match goal with |- context [complete_cb ?i ?v ?s] =>
+      pose proof (complete_cb_ip i v s H) as H'; destruct (complete_cb i v s) as [s' os] end.
+    apply IH; auto.
+  - destruct (c_push s && is_nil (j_method m) && has_reply_fields m); auto.
+Qed.
+
+Lemma stop_locked_ip sc s : inv_push s -> inv_push (fst (stop_locked sc s)).
+Proof.
+  intros H. destruct (stop_locked sc s) as [s' os] eqn:E. cbn [fst].
+  apply stop_locked_spec in E as [(_ & -> & _)|(R & _ & R' & _ & _ & _ & C & CI & _ & _ & _ & CB)]; auto.
+  eapply ip_stop; eauto.
+Qed.
+
+Lemma read_cs_ip f s s' os : inv_push s -> read_cs f s = (s', os) -> inv_push s'.
+Proof.
+  intros H E. unfold read_cs in E.
+  destruct f as [i|i|sc].
+  1,2: destruct (negb (running s)); [injection E as <- <-; ipf H|];
+       destruct i as [|b ms]; [cbn in E; injection E as <- <-; ipf H|];
+       destruct ms as [|m0 ms0]; [cbn in E; injection E as <- <-; ipf H|];
+       pose proof (filter_batch_ip (m0 :: ms0) s [] [] H) as H';
+       destruct (filter_batch (m0 :: ms0) s [] []) as [[s1 keep] os1]; cbn [fst] in H';
+       destruct keep; [injection E as <- <-; ipf H'|];
+       match type of E with (if ?b then _ else _) = _ => destruct b end;
+       injection E as <- <-; ipf H'.
+  pose proof (stop_locked_ip sc s H) as H'. destruct (stop_locked sc s) as [s2 os2]. cbn [fst] in *.
+  injection E as <- <-. ipf H'.
+Qed.
+
+Lemma inv_push_reachf c s : reachf c s -> inv_push s.
+Proof.
+  induction 1 as [|s l s' os R IH C H|s s' os R IH H].
+  - split; cbn; try constructor; try tauto; intros [|?] ?; discriminate.
+  - destruct (neutral l) eqn:Neu.
+    { apply step_raw_neutral in H as [P _]; auto. eapply ip_pv; eauto. }
+    destruct l; try discriminate Neu; cbn [step_raw] in H.
+    + (* LStart *)
+      destruct (negb (running s) && (wg s =? 0)); [|discriminate]. injection H as <- <-.
+      ipf IH.
+    + (* LSendFault *) injection H as <- <-. ipf IH.
+    + (* LCallStop *) injection H as <- <-. ipf IH.
+    + (* LCallCancel *) injection H as <- <-. ipf IH.
+    + (* LCallPush *) destruct (c_push s); injection H as <- <-; auto. ipf IH.
+    + (* LCbCtxEnd *)
+      destruct (find_idx (fun c => cb_op c =? n) 0 (cbs s)) as [i|]; injection H as <- <-.
+      2:{ ipf IH. }
+      eapply ip_upd with (i := i); [| | | | | |exact IH]; [reflexivity|reflexivity|reflexivity|reflexivity| | ].
+      * intros x. cbv beta. destruct (cb_cancelled x); reflexivity.
+      * intros c0 N I (O1 & O2 & O3 & O4 & O5). cbv beta. destruct (cb_cancelled c0) eqn:CC; unfold cb_ok; [rewrite CC; auto|].
+        cbn. rewrite O3. repeat split; auto.
+    + (* LRelRead *)
+      destruct (rd s); try discriminate. injection H as E.
+      eapply read_cs_ip; eauto.
+    + (* LRelStop *)
+      destruct (find_op n (ops s)) as [[| |]|]; try discriminate.
+      assert (H0 : inv_push (s <| ops ::= del_op n |>)) by (ipf IH).
+      pose proof (stop_locked_ip SCStop _ H0) as H'.
+      destruct (stop_locked SCStop (s <| ops ::= del_op n |>)) as [s2 os2]. injection H as <- <-. exact H'.
+    + (* LRelCancel *)
+      destruct (find_op n (ops s)) as [[| |]|]; try discriminate. cbn in H.
+      destruct (assoc id (used s)); injection H as <- <-.
+      * eapply ip_pv; [apply cancel_task_pv|]. ipf IH.
+      * ipf IH.
+    + (* LRelPush *)
+      destruct (find_op n (ops s)) as [[| |n' wantid m p]|]; try discriminate.
+      assert (H0 : inv_push (s <| ops ::= del_op n |>)) by (ipf IH).
+      cbn in H. destruct (running s) eqn:Run; cbn in H; [|injection H as <- <-; auto].
+      destruct wantid; [|injection H as <- <-; auto].
+      destruct (send_fail s) eqn:SF.
+      * injection H as <- <-. eapply ip_append; [| | | | |exact H0]; reflexivity.
+      * injection H as <- <-.
+        set (cnew := match find (fun e => fst e =? n) (ended s) with
+                     | Some (_, w) => mkCb n (dec_of_nat (call_id s)) None (Some w) true WParked false
+                     | None => mkCb n (dec_of_nat (call_id s)) None None false WBlocked false end).
+        assert (Hid : cb_id cnew = dec_of_nat (call_id s)).
+        { unfold cnew. destruct (find _ (ended s)) as [[? ?]|]; reflexivity. }
+        assert (Hok : cb_ok true cnew).
+        { unfold cnew. destruct (find _ (ended s)) as [[? ?]|]; unfold cb_ok; cbn; repeat split; auto; congruence. }
+        assert (H1 : inv_push (s <| ops ::= del_op n |> <| call_id ::= S |> <| cbs ::= fun l => l ++ [cnew] |>)).
+        { eapply ip_append; [| | | | |exact H0]; try reflexivity. exact Hid. }
+        eapply ip_register with (c := cnew); [| | | | | | | |exact H1]; try reflexivity.
+        -- exists (call_id s). cbn. split; auto.
+        -- cbn. apply nth_error_app_new.
+        -- exact Hid.
+        -- cbn. rewrite Run. exact Hok.
+    + (* LRelCbWatch *)
+      rename c0 into i.
+      destruct (nth_error (cbs s) i) as [cb0|] eqn:N; [|discriminate].
+      destruct (cb_watch cb0) eqn:W; try discriminate.
+      (* if callback i is registered, the watcher completes it *)
+      replace (calls (s <| cbs ::= upd_nth i (fun c => c <| cb_watch := WDone |>) |>)) with (calls s) in H by reflexivity.
+      destruct (assoc (cb_id cb0) (calls s)) as [j|] eqn:A.
+      2:{ injection H as <- <-. eapply ip_upd with (i := i); [| | | | | |exact IH]; [reflexivity|reflexivity|reflexivity|reflexivity| | ].
+          - reflexivity.
+          - intros c1 N1 I. apply (NoDup_assoc _ _ _ (ip_nodup _ IH)) in I. congruence. }
+      destruct (cb_slot cb0) eqn:SL.
+      { injection H as <- <-. eapply ip_upd with (i := i); [| | | | | |exact IH]; [reflexivity|reflexivity|reflexivity|reflexivity| | ].
+        - reflexivity.
+        - intros c1 N1 I (O1 & _). congruence. }
+      destruct (Nat.eqb_spec j i) as [->|Ne].
+      2:{ injection H as <- <-. eapply ip_upd with (i := i); [| | | | | |exact IH]; [reflexivity|reflexivity|reflexivity|reflexivity| | ].
+          - reflexivity.
+          - intros c1 N1 I. apply (NoDup_assoc _ _ _ (ip_nodup _ IH)) in I. congruence. }
+      assert (E : exists v, complete_cb i v (s <| cbs ::= upd_nth i (fun c => c <| cb_watch := WDone |>) |>) = (s', os)).
+      { destruct (cb_ctx cb0) as [[|]|]; injection H as H; eauto. }
+      destruct E as (v & E). clear H.
+      replace s' with (fst (complete_cb i v (s <| cbs ::= upd_nth i (fun c => c <| cb_watch := WDone |>) |>)))
+        by (rewrite E; reflexivity).
+      clear E.
+      unfold complete_cb.
+      match goal with |- context [nth_error ?l i] =>
+        change l with (upd_nth i (fun c => c <| cb_watch := WDone |>) (cbs s)) end.
+      rewrite (nth_error_upd_nth_eq _ _ _ _ N). cbn [fst].
+      eapply ip_complete with (i := i) (c := cb0)
+        (f := fun x => wake_watch ((x <| cb_watch := WDone |>) <| cb_slot := Some v |>)); eauto; try reflexivity.
+      cbn. rewrite upd_nth_upd_nth. reflexivity.
+  - eapply ip_pv; [eapply settle1_pv; eauto|auto].
+Qed.
+
+Lemma inv_push_reach c s : reach c s -> inv_push s.
+Proof. intros H. eapply inv_push_reachf, reach_reachf; eauto. Qed.
+
+Lemma inv_calls_reach c s : reach c s -> inv_calls s.
+Proof. intros H. eapply inv_push_calls, inv_push_reach; eauto. Qed.
